@@ -10,7 +10,7 @@
 From CB Require Import Spec Unstable.
 From Coq Require Import Permutation.
 From CBP Require Import Step RefDefs C02Lemmas Arith AbsLemmas AllOps FaultDefs FaultPrims FaultDropA FaultDropB FaultUser
-     Iters DrainP ExtendIo CmpHash Ctors PhysMoves UnstableEq Access Views RefTruncate FillExtend.
+     Iters DrainP ExtendIo CmpHash Ctors PhysMoves UnstableEq Access Views RefTruncate FillExtend FaultFrame SpecCorollaries.
 
 
 Theorem C07_get :
@@ -117,6 +117,29 @@ Theorem C07_make_contiguous :
   forall ws, refines_op (OMakeContiguous ws).
 Proof. exact (fun ws => exec_refines (OMakeContiguous ws)). Qed.
 Print Assumptions C07_make_contiguous.
+
+Theorem C07_sequence_views :
+  forall s w,
+  WF s -> fault w = None ->
+  let l := abs s in
+  (exists a b s', exec OAsSlices s w = (Ok (OutSlices a b), s', w) /\
+                  map snd (a ++ b) = l /\ abs s' = l) /\
+  (exists cs s' w', exec OToVec s w = (Ok (OutList cs), s', w') /\
+                    map eval cs = map eval l /\ abs s' = l) /\
+  (exists s' w', exec ODebug s w = (Ok OutUnit, s', w') /\
+                 log w' = log w ++ map EvFmt l /\ abs s' = l) /\
+  (exists rs s', exec (OIter (repeat SNext (length l))) s w = (Ok (OutScript rs), s', w) /\
+                 map erase_sres rs = map (fun e => RItem (Some (epe e))) l /\ abs s' = l).
+Proof. exact (exec_seq_views). Qed.
+Print Assumptions C07_sequence_views.
+
+Theorem C07_element_views :
+  forall s w o e,
+  WF s -> fault w = None -> ref_view (abs s) o e ->
+  exists p s', exec o s w = (Ok (OutRef p), s', w) /\ option_map snd p = e /\
+               abs s' = abs s /\ WF s' /\ cap s' = cap s.
+Proof. exact (exec_ref_views). Qed.
+Print Assumptions C07_element_views.
 
 Theorem C07_distinct_slots :
   forall s i j,
